@@ -17,6 +17,8 @@ for name in names:
     ID = name.split('-')[0]
     checks = [ID] + [c for c in m.get('detected_by', []) if c != ID]
     checks += [c for c in os.environ.get('SEED_CHECKS', '').split() if c not in checks]
+    if m.get('not_portable'):
+        print(name, 'SKIPPED (not portable to the current tree):', m['not_portable'][:100]); continue
     rw = f'/tmp/seedreg_{name}'
     sh(f'git -C /repo worktree remove --force {rw}')
     if sh(f'git -C /repo worktree add -q --detach {rw} HEAD').returncode:
@@ -36,6 +38,18 @@ for name in names:
         m['checks'] = caught
         m['detected_by'] = det
         m['regressed_at'] = sh('git -C /verif rev-parse --short HEAD').stdout.strip()
+        (d / 'meta.json').write_text(json.dumps(m, indent=1))
+        if not det:
+            # does the change still break the property on the current (repaired) tree?  Its own demonstration decides.
+            r = subprocess.run(f'/venv/bin/python {d}/demo.py {rw}', shell=True, text=True, capture_output=True, env=env, timeout=1800)
+            if r.returncode == 0:
+                m['obsolete'] = {'since_repo_head': sh('git -C /repo rev-parse --short HEAD').stdout.strip(),
+                                 'why': 'with this patch applied to the current (repaired) tree the seed\'s own demonstration '
+                                        'exits 0: the change no longer breaks the property'}
+                (d / 'meta.json').write_text(json.dumps(m, indent=1))
+                print(name, 'no longer breaks the property on the current tree (own demo exits 0); undetected as it should be')
+                continue
+        m.pop('obsolete', None)
         (d / 'meta.json').write_text(json.dumps(m, indent=1))
         print(name, 'detected by', det if det else 'NONE')
         if not det:
